@@ -5,6 +5,7 @@ package main
 import (
 	"bufio"
 	"bytes"
+	"context"
 	"crypto/sha256"
 	"encoding/json"
 	"fmt"
@@ -14,6 +15,8 @@ import (
 	"runtime"
 	"strconv"
 	"strings"
+	"syscall"
+	"time"
 
 	"github.com/postalsys/muti-metroo/internal/config"
 	"github.com/postalsys/muti-metroo/internal/identity"
@@ -138,12 +141,33 @@ func c34NewWorld(state []string) *c34World {
 			must(os.WriteFile(filepath.Join(w.dir, name), b, 0o600))
 			w.wrote[name] = state[i+1]
 			w.wroteB[name] = b
+			w.adopt(c34Kind[i], state[i+1])
 		}
 	}
 	return w
 }
 
 func (w *c34World) close() { os.RemoveAll(w.root) }
+
+// adopt: a state token with a value tag outside the fixed table (>= 10; e.g. a state a real kill left behind,
+// fed back as the start state of the next process) names the deterministic test value of that tag; make the
+// reverse lookup know it, so that the value is printed under the same tag again.
+func (w *c34World) adopt(kind int, tok string) {
+	if kind == 3 || len(tok) < 2 || (tok[0] != 'w' && tok[0] != 'c') {
+		return
+	}
+	v, err := strconv.Atoi(strings.SplitN(tok[1:], ".", 2)[0])
+	if err != nil || v < 10 {
+		return
+	}
+	if kind == 0 {
+		w.fresh[fmt.Sprint(0, c34ID(v).String())] = v
+		return
+	}
+	k := c34Priv(v)
+	w.fresh[fmt.Sprint(1, identity.KeyToString(k))] = v
+	w.freshKeys[v] = k
+}
 
 func (w *c34World) freshTag(kind int, hexv string) int {
 	if t, ok := w.fresh[fmt.Sprint(kind, hexv)]; ok {
@@ -378,25 +402,51 @@ func c34Run(line string) string {
 		an := c34ActLen(f[3])
 		act := f[3 : 3+an]
 		w := c34NewWorld(f[3+an:])
-		defer w.close()
 		self, err := os.Executable()
 		must(err)
 		sc := c34Syscalls(class)
-		cmd := exec.Command("strace", "-f", "-o", "/dev/null", "-e", "trace="+sc, "-e", "inject="+sc+":signal=KILL:when="+n, self, "c34", "run")
-		cmd.Stdin = strings.NewReader("child " + strings.Join(act, " ") + " " + w.dir + "\n")
-		out, err := cmd.Output()
-		how := "killed"
-		if err == nil && strings.Contains(string(out), "child-ok") {
-			how = "clean"
-		} else if err == nil {
-			return "crash-run-failed " + strings.ReplaceAll(strings.TrimSpace(string(out)), " ", "_")
-		} else if ee, ok := err.(*exec.ExitError); !ok || ee.ExitCode() == 1 {
-			// strace itself failed (exit 1 = usage/ptrace error), as opposed to dying with the tracee's SIGKILL
-			msg := err.Error()
-			if ok {
-				msg += ":" + string(ee.Stderr)
+		// Outcomes of the traced child:
+		//   killed   strace injected SIGKILL on entry of the N-th call of the class (strace then dies by the same signal)
+		//   clean    the child ran to completion before an N-th such call: `child-ok`, or `child-err` when the action
+		//            itself reported an error without being killed (e.g. every save fails in a missing data directory)
+		//   anything else = the child could not be started / traced (strace or ptrace failure, timeout): machinery,
+		//            retried up to 3 times on a FRESH copy of the initial directory state.
+		how, fail := "", ""
+		for try := 0; try < 3 && how == ""; try++ {
+			if try > 0 {
+				w.close()
+				w = c34NewWorld(f[3+an:])
 			}
-			return "strace-failed " + strings.ReplaceAll(strings.TrimSpace(msg), " ", "_")
+			ctx, cancel := context.WithTimeout(context.Background(), 120*time.Second)
+			cmd := exec.CommandContext(ctx, "strace", "-f", "-o", "/dev/null", "-e", "trace="+sc, "-e", "inject="+sc+":signal=KILL:when="+n, self, "c34", "run")
+			cmd.Stdin = strings.NewReader("child " + strings.Join(act, " ") + " " + w.dir + "\n")
+			out, err := cmd.Output()
+			timedOut := ctx.Err() != nil
+			cancel()
+			text := string(out)
+			switch {
+			case timedOut:
+				fail = "timeout"
+			case err == nil && (strings.Contains(text, "child-ok") || strings.Contains(text, "child-err")):
+				how = "clean"
+			case err == nil:
+				fail = "no-answer:" + text
+			default:
+				ee, ok := err.(*exec.ExitError)
+				if ok {
+					if ws, ok2 := ee.Sys().(syscall.WaitStatus); ok2 && ((ws.Signaled() && ws.Signal() == syscall.SIGKILL) || ws.ExitStatus() == 137) {
+						how = "killed"
+						break
+					}
+					fail = err.Error() + ":" + string(ee.Stderr)
+				} else {
+					fail = err.Error()
+				}
+			}
+		}
+		defer func() { w.close() }()
+		if how == "" {
+			return "strace-failed " + strings.ReplaceAll(strings.TrimSpace(fail), " ", "_")
 		}
 		w.phase = 0
 		s1 := w.state()
